@@ -15,10 +15,6 @@ import (
 	"verifharness/project"
 )
 
-func setup(vod, work string, thorough bool) (*tl.Env, error) {
-	return tl.Setup(vod, thorough)
-}
-
 func findAsset(env *tl.Env, name string) *tl.Asset {
 	for _, a := range env.Assets {
 		if a.Name == name {
@@ -151,10 +147,6 @@ func plan(env *tl.Env, rng *rand.Rand, thorough bool) []*scen {
 		rt := a.Video
 		if x.audio {
 			rt = a.Audio
-		}
-		if a.Gen && a.Video.MediaPat != "" && strings.Contains(a.Video.MediaPat, "$Time$") && x.mode == "number" {
-			// a VoD asset addressed by $Time$ is served live by number as well; nothing to adjust
-			_ = 0
 		}
 		extra := []string{"chunkdur_" + x.chunkdur}
 		var wextra []string
